@@ -223,6 +223,8 @@ def delta_candidates(thr, step):
 
 
 ULP_PAIRS = [(s, t) for s in ULP_STEPS for t in ULP_THRS if len(delta_candidates(t, s)) >= 2]
+# ... of which: the two plainest spellings, thr * (step / 3600.) and thr * step / 3600., differ
+ULP_PAIRS_PLAIN = [(s, t) for s, t in ULP_PAIRS if t * (s / 3600.0) != t * s / 3600.0]
 ULP_PAIRS_SAME = [(s, t) for s in ULP_STEPS for t in ULP_THRS if len(delta_candidates(t, s)) == 1]
 
 
@@ -249,17 +251,21 @@ def gen_foot_record(rng, nmax=30):
     that the dry samples can form an interstorm interval); the heavy rain arrives with or after the first fast
     increment.  Some in-rise increments and some recession increments are boundary values too.  (step, jump
     threshold) mostly from ULP_PAIRS.  rec['edge_exact'] = number of boundary increments realised exactly."""
-    step, thr_j = rng.choice(ULP_PAIRS) if rng.random() < 0.85 else rng.choice(ULP_PAIRS_SAME)
+    lattice = rng.choice([ULP_PAIRS_PLAIN] * 7 + [ULP_PAIRS] * 2 + [ULP_PAIRS_SAME])
+    step, thr_j = rng.choice(lattice)
     thr_s = rng.choice(THRS)
     n = rng.randrange(8, max(9, nmax))
-    heavy, light, fast, edge = [False] * n, [False] * n, [False] * n, [False] * n
+    heavy, light, fast, edge, plain = [False] * n, [False] * n, [False] * n, [False] * n, [False] * (n + 2)
     i = rng.randrange(0, 3)
     while i < n - 4:
-        if rng.random() < 0.75:
-            light[i] = True
-        dry = rng.randrange(1, 4)
+        if rng.random() < 0.5:
+            # shower, two dry samples joined by ONE boundary increment, then the rise: the dry pair is an interstorm
+            # interval exactly when that increment is not a jump, and the foot of the rise exactly when it is
+            light[i], dry, ne, plain[i + 1] = True, 2, 1, True
+        else:
+            light[i], dry, ne = rng.random() < 0.6, rng.choice([1, 2, 3]), rng.choice([1, 2])
         q = i + dry                                   # last dry sample of the foot
-        for k in range(max(i, q - rng.randrange(1, 3)), q):
+        for k in range(max(i, q - ne), q):
             edge[k] = True                            # boundary increments k -> k+1, up to sample q
         lr = rng.randrange(2, 5)
         for k in range(q, min(n - 1, q + lr)):
@@ -271,6 +277,7 @@ def gen_foot_record(rng, nmax=30):
             heavy[k] = True
         i = max(q + lr, s0 + 1) + rng.randrange(2, 5)
     bvals = boundary_values(thr_j, step)
+    foot_vals = bvals + bvals[1:-1]                   # each candidate product twice as likely as the two neighbours
     delta = thr_j * (step / 3600.0)
     rain = [rain_value(rng, thr_s, 'heavy') if heavy[k] else
             (rng.choice([thr_s / 2, 0.1, thr_s, 1.0 if thr_s > 1.0 else thr_s / 4]) if light[k] else 0.0) for k in range(n)]
@@ -279,7 +286,7 @@ def gen_foot_record(rng, nmax=30):
         if edge[k]:
             if not (k > 0 and (edge[k - 1] or fast[k - 1])):
                 zeta[-1] = min(zeta[-1], rng.choice([0.0, 0.1, -0.1, 0.05, 0.2]))   # a fall of any size is never a jump
-            d = rng.choice(bvals)
+            d = rng.choice(bvals[1:-1] if plain[k] else foot_vals)
             z = exact_next(zeta[-1], d)
             exact += (z - zeta[-1] == d)
         elif fast[k]:
